@@ -1,6 +1,7 @@
 from abc import ABC, abstractmethod
 import getpass
 import sys, os, pickle
+from io import BytesIO
 import tempfile
 import types
 import re
@@ -373,12 +374,19 @@ class Lark(Serialize, Generic[_Return_T]):
                         # Remove options that aren't relevant for loading from cache
                         for name in (set(options) - _LOAD_ALLOWED_OPTIONS):
                             del options[name]
-                        file_sha256 = f.readline().rstrip(b'\n')
-                        cached_used_files = pickle.load(f)
-                        if file_sha256 == cache_sha256.encode('utf8') and verify_used_files(cached_used_files):
-                            cached_parser_data = pickle.load(f)
-                            self._load(cached_parser_data, **options)
-                            return
+                        # Header line: <sha256 of grammar+options> <payload size> <sha256 of payload>
+                        header = f.readline().rstrip(b'\n').split(b' ')
+                        if len(header) == 3 and header[0] == cache_sha256.encode('utf8') and header[1].isdigit():
+                            payload = f.read(int(header[1]))
+                            # Verify the payload before unpickling any of it, so that a damaged file,
+                            # or one that several processes wrote at once, is never served
+                            if sha256_digest(payload).encode('utf8') == header[2] and not f.read(1):
+                                payload_f = BytesIO(payload)
+                                cached_used_files = pickle.load(payload_f)
+                                if verify_used_files(cached_used_files):
+                                    cached_parser_data = pickle.load(payload_f)
+                                    self._load(cached_parser_data, **options)
+                                    return
                 except FileNotFoundError:
                     # The cache file doesn't exist; parse and compose the grammar as normal
                     pass
@@ -482,9 +490,12 @@ class Lark(Serialize, Generic[_Return_T]):
             try:
                 with FS.open(cache_fn, 'wb') as f:
                     assert cache_sha256 is not None
-                    f.write(cache_sha256.encode('utf8') + b'\n')
-                    pickle.dump(used_files, f)
-                    self.save(f, _LOAD_ALLOWED_OPTIONS)
+                    payload_f = BytesIO()
+                    pickle.dump(used_files, payload_f)
+                    self.save(payload_f, _LOAD_ALLOWED_OPTIONS)
+                    payload = payload_f.getvalue()
+                    f.write(b'%s %d %s\n' % (cache_sha256.encode('utf8'), len(payload), sha256_digest(payload).encode('utf8')))
+                    f.write(payload)
             except IOError as e:
                 logger.exception("Failed to save Lark to cache: %r.", cache_fn, e)
 
